@@ -181,6 +181,10 @@ HAND = {
     "maa_switch": union(MAA_CORE, switch()),
     "maa_toggle": union(MAA_CORE, toggle()),
     "maa_source": union(MAA_CORE, sources(1)),
+    "maa_double": union(MAA_CORE, MAA_CORE),
+    "maa_latch_switch": union(MAA_CORE, latch(1), switch()),
+    "maa_latch_toggle": union(MAA_CORE, latch(1), toggle()),
+    "maa_2latch_source": union(MAA_CORE, latch(1), latch(2), sources(1)),
     "maa_gated": norm("A,((!A&!B)|C)&s; B,((!A&!B)|C)&s; C,A&B; s,s"),
     "latch": latch(),
     "latch2": union(latch(1), latch(2)),
@@ -206,6 +210,17 @@ HAND = {
     "osc_pair": union(norm("a, !a"), norm("b, !b")),
 }
 HAND.update(FINDINGS)
+# networks in which the unreduced candidate list (reduction options off) contains a transient state AFTER a
+# state of the attractor it leads to: the exact filter must remember the attractors it has already found
+TRANSIENT_CANDIDATES = {
+    "tc_1": norm("a, (!a & !b & !c) | (!a & b & !c) | (a & b & !c) | (a & !b & c); b, d; c, (!a & !c & !d) | (!a & c & !d) | (a & c & !d) | (a & c & d); d, !d"),
+    "tc_2": norm("a, a; b, (a & !c & !d) | (!a & c & !d) | (a & !c & d) | (!a & c & d) | (a & c & d); c, c; "
+                 "d, (!a & !b & !c) | (a & b & !c) | (!a & !b & c) | (a & !b & c) | (!a & b & c)"),
+    "tc_3": norm("a, !b; b, (a & c & !d) | (!a & c & d) | (a & c & d); c, (!b & d) | (b & d); d, d"),
+    "tc_4": norm("a, !c; b, (!b & !c) | (!b & c); c, (!a & !b) | (!a & b) | (a & b)"),
+    "tc_5": norm("a, !b & !c; b, (!a & b & !c) | (!a & !b & c) | (!a & b & c); c, a & !b"),
+}
+HAND.update(TRANSIENT_CANDIDATES)
 
 # networks whose names need sanitising (AEON accepts braces etc. in .aeon; for bnet we keep to what
 # the bnet parser accepts); used by C17 through the BooleanNetwork API as well.
@@ -232,7 +247,7 @@ def network_family(seed: int, tier: str, max_vars: int = 6, n_random: int | None
     in more of the larger ones and, if max_vars >= 6, occasionally 7 variables).  Consumers stop at
     their time budget; the order is a function of (seed, tier) only."""
     if hand:
-        first = [k for k in FINDINGS if len(variables(FINDINGS[k])) <= hand_max_vars]
+        first = [k for k in list(FINDINGS) + list(TRANSIENT_CANDIDATES) if len(variables(HAND[k])) <= hand_max_vars]
         for k in first:
             yield (k, HAND[k])
         for k, v in hand_nets(hand_max_vars):
@@ -324,3 +339,74 @@ def random_step(rng: random.Random, names, ops) -> list:
 def random_history(seed: int, names, length: int, ops) -> list:
     rng = random.Random(seed)
     return [random_step(rng, names, ops) for _ in range(length)]
+
+
+# --------------------------------------------------------------------------------------------
+# presentation-level transformations (C17); each returns (new bnet text, rename map old->new, flipped old names)
+# --------------------------------------------------------------------------------------------
+def t_rename(bnet: str, seed: int):
+    vs = variables(bnet)
+    rng = random.Random(seed)
+    perm = vs[:]
+    rng.shuffle(perm)
+    style = rng.choice(["perm", "prefix", "upper"])
+    if style == "perm":
+        mapping = dict(zip(vs, perm))
+    elif style == "prefix":
+        mapping = {v: f"{'zyxwvutsrq'[i % 10]}{i}_{v}" for i, v in enumerate(vs)}
+    else:
+        mapping = {v: (v.upper() + "_" if v.upper() != v else v.lower() + "_") for v in vs}
+    if len(set(mapping.values())) != len(vs):
+        mapping = {v: f"n{i}" for i, v in enumerate(reversed(vs))}
+    return rename(bnet, mapping), mapping, []
+
+
+def t_reorder(bnet: str, seed: int):
+    rules = parse_rules(bnet)
+    random.Random(seed).shuffle(rules)
+    return to_bnet(rules), {v: v for v, _ in rules}, []
+
+
+def t_equivalent(bnet: str, seed: int):
+    rng = random.Random(seed)
+    vs = variables(bnet)
+    out = []
+    for v, e in parse_rules(bnet):
+        w = rng.choice(vs)
+        m = rng.randrange(5)
+        if m == 0:
+            e2 = f"!!({e})"
+        elif m == 1:
+            e2 = f"({e}) & ({w} | !{w})"
+        elif m == 2:
+            e2 = f"({e}) | ({w} & !{w})"
+        elif m == 3:
+            e2 = f"(({e}) & {w}) | (({e}) & !{w})"
+        else:
+            e2 = f"!(!({e}) | ({w} & !{w}))"
+        out.append((v, e2))
+    return to_bnet(out), {v: v for v in vs}, []
+
+
+def t_negate(bnet: str, seed: int):
+    """Encode one or two variables by their negation: v = !nv."""
+    rng = random.Random(seed)
+    vs = variables(bnet)
+    flip = rng.sample(vs, min(len(vs), rng.choice([1, 1, 2])))
+    new = {v: (f"n_{v}" if v in flip else v) for v in vs}
+    pat = re.compile(r"[A-Za-z_][A-Za-z0-9_]*")
+
+    def sub(m):
+        w = m.group(0)
+        if w in flip:
+            return f"(!{new[w]})"
+        return w
+
+    out = []
+    for v, e in parse_rules(bnet):
+        e2 = pat.sub(sub, e)
+        out.append((new[v], f"!({e2})" if v in flip else e2))
+    return to_bnet(out), new, flip
+
+
+TRANSFORMS = {"rename": t_rename, "reorder": t_reorder, "equivalent": t_equivalent, "negate": t_negate}
